@@ -40,11 +40,16 @@ TYPES = {"ov": ("optional", "vector", 0, 1, "ov"), "oa3": ("optional", "array", 
          "cv": ("complex", "vector", 0, 1, "cv"), "ca3": ("complex", "array", 3, 1, "ca3"), "ca66": ("complex", "array", 66, 1, None),
          "ovd": ("optional", "vector", 0, 2, "ov"), "ovb": ("optional", "vector", 0, 2, "ov"), "ovn": ("optional", "vector", 0, 2, "ov"), "oab3": ("optional", "array", 3, 2, "oa3"),
          "oa0": ("optional", "array", 0, 2, "oa0"), "ca0": ("complex", "array", 0, 2, "ca0"),
-         "cvi": ("complex", "vector", 0, 2, "cv"), "cai3": ("complex", "array", 3, 2, "ca3")}
+         "cvi": ("complex", "vector", 0, 2, "cv"), "cai3": ("complex", "array", 3, 2, "ca3"),
+         # round 3 (driver group 3): other flag containers, another element type
+         "ovw": ("optional", "vector", 0, 3, "ov"), "ovq": ("optional", "vector", 0, 3, "ov"), "ovc": ("optional", "vector", 0, 3, "ov"),
+         "cvf": ("complex", "vector", 0, 3, "cv")}
 WHAT = {"ov": "xoptional_vector<int>", "oa3": "xoptional_array<int,3>", "oa70": "xoptional_array<int,70>", "cv": "xcomplex_vector<double>",
         "ca3": "xcomplex_array<double,3>", "ca66": "xcomplex_array<double,66>", "ovd": "xoptional_vector<double>",
         "ovb": "xoptional_vector<int, std::allocator<int>, std::vector<bool>>", "oab3": "xoptional_array<int,3,std::array<bool,3>>",
         "ovn": "xoptional_vector<int, std::allocator<int>, xdynamic_bitset<uint8_t>> (narrow flag blocks)",
+        "ovw": "xoptional_vector<int, std::allocator<int>, xdynamic_bitset<uint16_t>>", "ovq": "xoptional_vector<int, std::allocator<int>, xdynamic_bitset<uint32_t>>",
+        "ovc": "xoptional_vector<int, std::allocator<int>, std::vector<char>>", "cvf": "xcomplex_vector<float>",
         "oa0": "xoptional_array<int,0>", "ca0": "xcomplex_array<double,0>", "cvi": "xcomplex_vector<double,true>", "cai3": "xcomplex_array<double,3,true>"}
 PRIMARY = {(v[0], v[1], v[2]): k for k, v in TYPES.items() if v[4] == k}          # TLC configuration -> the type it is replayed on first
 ALIASES = {}                                                                    # primary key -> other types of the same configuration
@@ -55,9 +60,13 @@ ITER_PATHS = ("iter", "citer", "riter", "criter")
 NAVS = ("plus", "minus", "inc", "dec", "sub", "arrow", "peq", "meq", "postinc")
 READ_PATHS = ("index", "cindex", "at", "cat", "front", "cfront", "back", "cback") + ITER_PATHS
 WRITE_PATHS = ("index", "at", "front", "back", "iter", "riter")
-OBSERVERS = {"At", "Read", "Extract", "IterRel", "Feature", "MaxSize", "Rel"}
+OBSERVERS = {"At", "Read", "Extract", "IterRel", "Feature", "MaxSize", "Rel"}         # (Algo writes)
 ALL_OPS = ["CtorDefault", "CtorN", "CtorNV", "CtorNO", "CtorIL", "CtorCopy", "CopyAssign", "CtorMove", "MoveAssign",
-           "Resize", "ResizeV", "ResizeO", "At", "Read", "Write", "WriteUnder", "Extract", "IterRel", "ProxySwap", "MaxSize", "Rel"]
+           "Resize", "ResizeV", "ResizeO", "At", "Read", "Write", "WriteUnder", "Extract", "IterRel", "ProxySwap", "MaxSize", "Rel", "Algo"]
+# standard algorithms over the iterators: which compile-probe bit each needs (harness/parseq/probe_algo.cpp)
+ALGO_BIT = {"copy": 1, "copybwd": 8, "reverse": 2, "rotate": 2, "sort": 4}
+ALGO_WHAT = {1: "std::copy from const iterators (proxy = const proxy)", 8: "std::copy_backward (proxy = proxy of the same type)",
+             2: "std::reverse / std::rotate (swap of two proxies)", 4: "std::sort (proxy moved into a value_type temporary and back)"}
 MOVES = {"CtorMove", "MoveAssign"}
 BIG_SIZES = [0, 1, 2, 3, 5, 8, 63, 64, 65, 66, 127, 128, 129, 200]
 SMALL_SIZES = [0, 1, 2, 3, 4, 5, 8]
@@ -79,6 +88,7 @@ CALL_PROBES = [
     (14, False, "compound assignment through proxies, proxy swap, <,<=,>,>=, max_size"),
     (15, False, "other instantiations (double values, std::vector<bool>/std::array<bool> flags, extent 0, ieee_compliant)"),
 ]
+GROUPS = (1, 2, 3)
 FLAVOURS = {"asan": (None, [], True), "o2ndebug": (None, ["-O2", "-DNDEBUG"], False), "clang": ("clang++", [], True), "o0": (None, ["-O0"], False)}
 # instantiations whose moved-from objects are known not to be valid containers on the current tree (proposed_fixes/C11-06,
 # outside the property's operations): a failing probe is a NOTE for these and a violation for every other instantiation
@@ -105,7 +115,23 @@ def probe_features(ctx):
             if not ok:
                 with open(os.path.join(ctx.work, "probe_%s.log" % k), "w") as f:
                     f.write(out)
+
+    # which standard algorithms accept the iterators of each flavour (bit masks, see ALGO_BIT)
+    def algo(item):
+        flav, bit = item
+        rc, out = compile_probe(os.path.join(HDIR, "probe_algo.cpp"), "FLAV=%d" % flav, extra=["-DALG=%d" % bit])
+        return flav, bit, rc == 0
+    masks = {1: 0, 2: 0}
+    with ThreadPoolExecutor(max_workers=4) as ex:
+        for flav, bit, ok in ex.map(algo, [(f, b) for f in (1, 2) for b in (1, 8, 2, 4)]):
+            if ok:
+                masks[flav] |= bit
+    feats["algo_opt"], feats["algo_cplx"] = masks[1], masks[2]
     return feats
+
+
+def algo_mask(feats, key):
+    return feats["algo_opt"] if TYPES[key][0] == "optional" else feats["algo_cplx"]
 
 
 def type_flags(feats, key):
@@ -127,6 +153,7 @@ def build_driver(ctx, feats, flavour="asan", group=1):
         flags.append("-DPARSEQ_CPLX_ARRAY_FWD_ITER")
     if feats["cas"]:
         flags.append("-DPARSEQ_CPLX_ASSIGN")
+    flags += ["-DPARSEQ_ALGO_OPT=%d" % feats.get("algo_opt", 0), "-DPARSEQ_ALGO_CPLX=%d" % feats.get("algo_cplx", 0)]
     drv = os.path.join(ctx.work, "parseq_driver_%s_g%d" % (flavour, group))
     core.build(ctx, os.path.join(HDIR, "driver.cpp"), drv, flags=flags, asan=asan, cxx=cxx)
     return drv
@@ -146,6 +173,8 @@ def supported(feats, key, ev):
         return False
     if not cas and ev["op"] == "Write" and a.get("wk") in ("pair", "from", "addpair"):
         return False
+    if ev["op"] == "Algo" and not (fwd and cas and (algo_mask(feats, key) & ALGO_BIT[a["alg"]])):
+        return False
     return True
 
 
@@ -164,6 +193,8 @@ class Gen:
         self.sizes = BIG_SIZES if big else SMALL_SIZES
         self.moved_ok = bool(caps.get("movedfrom", {}).get(key))
         self.nmul = 0
+        m = algo_mask(feats, key) if (self.fwd and self.cas) else 0
+        self.algs = [a for a, b in sorted(ALGO_BIT.items()) if m & b]
 
     def val(self):
         r = self.r
@@ -288,8 +319,27 @@ class Gen:
                 which = r.choice(["a", "b"])
                 x = r.randrange(2) if (which == "b" and self.fl == "optional") else self.val()
                 return self.ev("WriteUnder", k, which=which, i=r.choice([0, n - 1, r.randrange(n)]), x=x)
-            if c < 0.93:
+            if c < 0.915:
                 return self.ev("Extract", k, which=r.choice(["a", "b"]))
+            if c < 0.93:
+                if not self.algs:
+                    return self.ev("Extract", k, which=r.choice(["a", "b"]))
+                alg = r.choice(self.algs)
+                no = self.size[o]
+                pos = lambda hi: r.choice([0, hi, r.randrange(hi + 1), min(hi, 63), min(hi, 64), min(hi, 65), max(hi - 1, 0)])
+                if alg == "copy":
+                    i, j = sorted([pos(no), pos(no)])
+                    if j - i > n:
+                        j = i + n
+                    return self.ev("Algo", k, alg=alg, i=i, m=r.choice([0, n - (j - i), r.randrange(n - (j - i) + 1)]), j=j)
+                if alg == "copybwd":
+                    i, j = sorted([pos(n), pos(n)])
+                    return self.ev("Algo", k, alg=alg, i=i, m=r.choice([0, 1, n - j, r.randrange(n - j + 1)]) if n - j > 0 else 0, j=j)
+                if alg == "rotate":
+                    i, m, j = sorted([pos(n), pos(n), pos(n)])
+                    return self.ev("Algo", k, alg=alg, i=i, m=m, j=j)
+                i, j = sorted([pos(n), pos(n)])
+                return self.ev("Algo", k, alg=alg, i=i, m=0, j=j)
             if c < 0.95:
                 if self.fl == "optional" and r.random() < 0.6:
                     return self.ev("Rel", k)
@@ -549,8 +599,8 @@ def key_of_reset(rs):
     return a.get("ty") or PRIMARY.get((a["fl"], a["ct"], a["n"])) or next(k for k, v in TYPES.items() if v[:3] == (a["fl"], a["ct"], a["n"]))
 
 
-def compile_probe(src, define, cxx=None):
-    cmd = [cxx or core.CXX, "-std=c++14", "-fsyntax-only", "-I", core.INCLUDE, "-I", os.path.join(core.HARNESS, "common"), "-D" + define, src]
+def compile_probe(src, define, cxx=None, extra=()):
+    cmd = [cxx or core.CXX, "-std=c++14", "-fsyntax-only", "-I", core.INCLUDE, "-I", os.path.join(core.HARNESS, "common"), "-D" + define] + list(extra) + [src]
     return core.sh(cmd, timeout=300)
 
 
@@ -720,7 +770,7 @@ def advisory(ctx, traces):
     ProxySwap: does xoptional::swap on two element proxies exchange the two pairs?  Rel: do <,<=,>,>= of
     xoptional_sequence behave like 'values compare lexicographically and the flags are equal'?"""
     swaps = [0, 0]
-    rels = [0, 0]
+    rels = [0, 0, 0]
     for tp in traces:
         prev = None
         try:
@@ -748,10 +798,19 @@ def advisory(ctx, traces):
                         ref = [int(x["A"] < y["A"] and same), int(x["A"] <= y["A"] and same), int(x["A"] > y["A"] and same), int(x["A"] >= y["A"] and same)]
                         rels[0] += 1
                         rels[1] += int(ev["res"]["val"] == ref)
+                        # order-consistency laws (advisory): the four answers and == of the same two objects must fit together
+                        lt, le, gt, ge = ev["res"]["val"]
+                        eq = int(bool(ev["st"]["eq"]))
+                        lawful = (le == int(lt or eq)) and (ge == int(gt or eq)) and not (lt and gt) and not (lt and eq) and not (gt and eq)
+                        rels[2] += int(not lawful)
                 except Exception:
                     pass
                 prev = line
+    if rels[2]:
+        ctx.drift.append("ADVISORY C11: the relational operators of xoptional_sequence are not mutually consistent in %d of %d calls "
+                         "(expected for any ordering: (a <= b) == (a < b or a == b), (a >= b) == (a > b or a == b), not (a < b and a > b), a < b implies a != b)" % (rels[2], rels[0]))
     ctx.notes["advisory_not_judged"] = {
+        "relational_calls_violating_the_order_consistency_laws": rels[2],
         "proxy_swap_calls": swaps[0], "proxy_swap_exchanged_both_pairs": swaps[1],
         "relational_calls": rels[0], "relational_like_lexicographic_values_and_equal_flags": rels[1]}
 
@@ -764,7 +823,8 @@ def finish(ctx, q, caps, extra=""):
         rule="TLC: L1 (one sequence of pairs, two objects, every operation) exhaustive for two objects of sizes <= 2%s with its laws; L2 (two "
              "separately sized storages transcribed from the headers) keeps them in lockstep and refines L1; L1 transitions for sizes 0..%d x "
              "components {0,1} x all access paths and iterator navigations on the vector flavours, extents 3 and 0 on the array flavours, "
-             "enumerated by TLC and %s replayed on the real objects; TLC simulation walks; seeded random scripts on thirteen instantiations with "
+             "enumerated by TLC and %s replayed on the real objects; TLC simulation walks; seeded random scripts on seventeen instantiations (flag containers "
+             "xdynamic_bitset<size_t/uint8_t/uint16_t/uint32_t>, std::vector<bool>, std::vector<char>, std::array<bool,3>; int, double, float elements) with "
              "sizes up to 200 and extents 0/3/66/70 on %d driver builds.  A case is one call whose result and full projection (size(), both "
              "storage sizes, elements from the underlying containers, operator[], forward and reverse iteration, ==, !=) are compared by TLC.%s" % (
                  "" if q else " and one object of sizes <= 4", 3 if q else 4,
@@ -774,7 +834,10 @@ def finish(ctx, q, caps, extra=""):
                      "move is destroyed and re-created at once" % (", ".join(k for k in TYPES if mf.get(k)) or "none", ", ".join(k for k in TYPES if not mf.get(k)) or "none"),
                      "the relational operators of xoptional_sequence (<, <=, >, >=) and proxy swap are exercised but not judged (outside the property): "
                      "only that they leave everything else alone; allocators are not modelled",
-                     "constructors taking a size are only called with the container's own size for the array flavours"],
+                     "constructors taking a size are only called with the container's own size for the array flavours (a foreign size is probed, advisory)",
+                     "standard algorithms over the iterators (Algo: copy, copy_backward exact; reverse, rotate, sort as permutations of whole pairs) are "
+                     "actions of L1 and model-checked; only those that compile with the headers under test are bound to the code (see "
+                     "std_algorithms_not_accepting_the_iterators)"],
         exhaustive=False)
 
 
@@ -795,9 +858,16 @@ def run(ctx):
         print("NOTE property=C11 `container[i] = xcomplex<T>(re, im)` does not compile with these headers "
               "(xcomplex::operator= reads private members of another instantiation); whole-element writes to complex "
               "containers are not exercised, component writes are (see proposed_fixes/C11-05)")
+    missing = {fl: [ALGO_WHAT[b] for b in (1, 8, 2, 4) if not (feats[k] & b)] for fl, k in (("optional", "algo_opt"), ("complex", "algo_cplx"))}
+    ctx.notes["std_algorithms_not_accepting_the_iterators"] = missing
+    for fl, lst in sorted(missing.items()):
+        if lst:
+            print("NOTE property=C11 the iterators of the %s sequences cannot be handed to: %s (does not compile with these headers: the proxy "
+                  "references have no swap for rvalues / no assignment from a proxy of the same type / no conversion to value_type); the "
+                  "corresponding Algo actions of ParSeq.tla are model-checked but not bound to this tree" % (fl, "; ".join(lst)))
     flavours = ["asan"] if ONLY_RND else ["asan", "o2ndebug"] + ([] if q else ["clang", "o0"])
     # (flavour, group): the secondary builds of the quick tier only cover the six original instantiations
-    jobs = [(fl, g) for fl in flavours for g in (1, 2) if not (q and fl != "asan" and g == 2)]
+    jobs = [(fl, g) for fl in flavours for g in GROUPS if not (q and fl != "asan" and g >= 2) and not (g == 3 and fl not in ("asan", "o2ndebug"))]
     builds, build_err = {}, {}
 
     def do_builds():
@@ -826,8 +896,8 @@ def run(ctx):
     finally:
         bt.join()
 
-    if ("asan", 1) in build_err or ("asan", 2) in build_err:
-        err = build_err.get(("asan", 1)) or build_err.get(("asan", 2))
+    if any(("asan", g) in build_err for g in GROUPS):
+        err = next(build_err[("asan", g)] for g in GROUPS if ("asan", g) in build_err)
         named, extra = call_probe_stage(ctx)
         if named or nsig:
             ctx.log("the conformance driver does not build against this tree; %d signature rows and %d named call families fail" % (nsig, named))
@@ -837,7 +907,7 @@ def run(ctx):
                              "%s:\n%s" % ((" (not named by the property, but used by the harness: %s)" % "; ".join(extra)) if extra else "", err))
     for j in build_err:
         raise MachineryError("driver build %s failed: %s" % (j, build_err[j]))
-    drv = {fl: {g: builds[(fl, g)] for g in (1, 2) if (fl, g) in builds} for fl in flavours}
+    drv = {fl: {g: builds[(fl, g)] for g in GROUPS if (fl, g) in builds} for fl in flavours}
 
     caps["movedfrom"], mf_scripts = probe_moved_from(ctx, drv["asan"], feats)
     ctx.notes["moved_from_container_is_valid"] = caps["movedfrom"]
@@ -933,6 +1003,31 @@ def run(ctx):
     # ---- the property demands forward iterators for every flavour: ask each array build
     for key in ("oa3", "ca3"):
         scripts.append(("feature-%s" % key, key, [reset_event(feats, key), {"op": "Feature", "k": 1, "a": {"name": "fwd_iter"}}], "asan"))
+
+    # ---- advisory: array constructors called with a size other than the extent (outside the statement: "called with the
+    # container's own size"); the two storages should still have the extent's length
+    wrong = {}
+    for key in ("oa3", "oab3", "ca3"):
+        if TYPES[key][3] not in drv["asan"]:
+            continue
+        for n in (2, 5):
+            v = [7, 1] if TYPES[key][0] == "optional" else [7, 2]
+            pl = [reset_event(feats, key), {"op": "CtorNV", "k": 1, "a": {"n": n, "v": v}}]
+            tp = os.path.join(ctx.sub("probe"), "ctorsize-%s-%d.ndjson" % (key, n))
+            run_script(ctx, drv["asan"], key, pl, tp, "probe-ctorsize")
+            evs = core.read_ndjson(tp)
+            last = evs[-1] if evs else {}
+            if last.get("op") == "Crash" or "st" not in last:
+                wrong["%s(%d, v)" % (WHAT[key], n)] = "crash"
+                continue
+            o0 = last["st"]["o"][0]
+            if not (o0["size"] == o0["nA"] == o0["nB"] == 3) and last.get("res", {}).get("exc") == "none":
+                wrong["%s(%d, v)" % (WHAT[key], n)] = "size()=%d, first storage %d, second storage %d" % (o0["size"], o0["nA"], o0["nB"])
+    ctx.notes.pop("driver_restarts", None)
+    ctx.notes["array_constructor_with_foreign_size"] = wrong or "storages keep the extent"
+    if wrong:
+        ctx.drift.append("ADVISORY C11: an array flavour constructed with a size other than its extent has storages of different lengths: %s "
+                         "(outside the statement, which only speaks of constructors called with the container's own size)" % json.dumps(wrong, sort_keys=True))
 
     # ---- probes for open known findings
     for fnd in findings:
